@@ -157,11 +157,11 @@ class DataPath:
 
         REPLACE = "path"
         ESC_CODE = rf"\{REPLACE}"
-        if any(ESC_CODE in k for k in spec.keys()):
+        if any(isinstance(k, str) and ESC_CODE in k for k in spec.keys()):
             # an escaped literal mapping: return an un-escaped copy (not a `DataPath`),
             # leaving the caller's mapping as it is
             return {
-                (k.replace(ESC_CODE, REPLACE) if ESC_CODE in k else k): v
+                (k.replace(ESC_CODE, REPLACE) if isinstance(k, str) else k): v
                 for k, v in spec.items()
             }
 
@@ -547,7 +547,7 @@ class ContainerValue:
 
         if cls == MapValue:
             # shorthand specs:
-            key_short_keys = [i for i in spec if i.startswith("key.")]
+            key_short_keys = [i for i in spec if isinstance(i, str) and i.startswith("key.")]
             key_short_cond_specs = {i: spec.pop(i) for i in key_short_keys}
             for spec_k, spec_v in key_short_cond_specs.items():
                 condition = condition & cnds.ConditionLike.from_spec({spec_k: spec_v})
@@ -564,7 +564,7 @@ class ContainerValue:
 
         elif cls == ListValue:
             # shorthand specs:
-            index_short_keys = [i for i in spec if i.startswith("index.")]
+            index_short_keys = [i for i in spec if isinstance(i, str) and i.startswith("index.")]
             index_short_cond_specs = {i: spec.pop(i) for i in index_short_keys}
             for spec_k, spec_v in index_short_cond_specs.items():
                 condition = condition & cnds.ConditionLike.from_spec({spec_k: spec_v})
@@ -581,7 +581,7 @@ class ContainerValue:
 
         elif cls == MapOrListValue:
             # shorthand specs:
-            index_short_keys = [i for i in spec if i.startswith("index.")]
+            index_short_keys = [i for i in spec if isinstance(i, str) and i.startswith("index.")]
             index_short_cond_specs = {i: spec.pop(i) for i in index_short_keys}
             for spec_k, spec_v in index_short_cond_specs.items():
                 list_condition = list_condition & cnds.ConditionLike.from_spec(
@@ -589,7 +589,7 @@ class ContainerValue:
                 )
 
             # shorthand specs:
-            key_short_keys = [i for i in spec if i.startswith("key.")]
+            key_short_keys = [i for i in spec if isinstance(i, str) and i.startswith("key.")]
             key_short_cond_specs = {i: spec.pop(i) for i in key_short_keys}
             for spec_k, spec_v in key_short_cond_specs.items():
                 map_condition = map_condition & cnds.ConditionLike.from_spec(
@@ -629,7 +629,7 @@ class ContainerValue:
             condition = condition & new_cond
 
         # shorthand specs:
-        value_short_keys = [i for i in spec if i.startswith("value.")]
+        value_short_keys = [i for i in spec if isinstance(i, str) and i.startswith("value.")]
         value_short_cond_specs = {i: spec.pop(i) for i in value_short_keys}
         for spec_k, spec_v in value_short_cond_specs.items():
             condition = condition & cnds.ConditionLike.from_spec({spec_k: spec_v})
